@@ -4,8 +4,7 @@
       partial_cmp, cmp; hash equalities; clone / owned / encoding observations), used on the implementation's output;
    3. the reference order [icmp] (a structural total preorder with a proper order on signatures and the numeric order
       on floats) against which the hand-written Ord is measured;
-   4. the decidable classes of inputs on which this tree is known to break a law ([has_nan], [clash], [has_fd],
-      [tuple_variant]);
+   4. the decidable classes of inputs on which this tree is known to break a law ([has_nan], [has_fd], [tuple_variant]);
    5. well-formedness of a dynamic value: the signatures stored in containers describe their members ([wfb]). *)
 From ZV Require Import Base.Bytes Base.Res Base.Sig C08.Model.
 
@@ -120,34 +119,9 @@ Fixpoint has_fd (v : value) : bool :=
   | _ => false
   end.
 
-(* walk two lists the way a lexicographic comparison does: look at a pair, go on only if it was equal *)
-Definition clash_l {A : Type} (c e : A -> A -> bool) : list A -> list A -> bool :=
-  fix go (xs ys : list A) {struct xs} : bool :=
-    match xs, ys with
-    | x :: xs', y :: ys' => c x y || (e x y && go xs' ys')
-    | _, _ => false
-    end.
-
-(* [clash a b]: comparing a with b reaches two *different* signatures (Signature leaves, or the stored signatures of two
-   arrays / dicts whose members compared equal — in a well-formed value that means two empty containers) *)
-Fixpoint clash (a b : value) {struct a} : bool :=
-  match a, b with
-  | VSig s, VSig t => negb (sig_eqb s t)
-  | VValue x, VValue y => clash x y
-  | VArray s xs, VArray t ys => clash_l clash veq xs ys || (list_eqb veq xs ys && negb (sig_eqb s t))
-  | VDict k v xs, VDict k' v' ys =>
-      clash_l (fun p q => match p, q with (a1, a2), (b1, b2) => clash a1 b1 || (veq a1 b1 && clash a2 b2) end)
-              (fun p q => match p, q with (a1, a2), (b1, b2) => veq a1 b1 && veq a2 b2 end) xs ys
-      || (list_eqb (fun p q => match p, q with (a1, a2), (b1, b2) => veq a1 b1 && veq a2 b2 end) xs ys
-          && negb (sig_eqb k k' && sig_eqb v v'))
-  | VStruct xs, VStruct ys => clash_l clash veq xs ys
-  | _, _ => false
-  end.
-
-Definition any_clash (l : list value) : bool := existsb (fun a => existsb (fun b => clash a b) l) l.
-
-(* the known-deviation class of a law case (a list of values that get compared with each other) *)
-Definition Known_C08 (l : list value) : bool := existsb has_nan l || any_clash l || existsb has_fd l.
+(* the known-deviation class of a law case (a list of values that get compared with each other).
+   (Before fix: commit 668536e1 there was a third class, pairs whose comparison reached two different signatures.) *)
+Definition Known_C08 (l : list value) : bool := existsb has_nan l || existsb has_fd l.
 
 (* a tuple with a member of type Value (TryFrom<Structure> does not undo the boxing Value::new did) *)
 Fixpoint tuple_variant (x : sv) : bool :=
@@ -229,7 +203,6 @@ Definition law_failures (o : lawobs) : list bytes :=
 
 (* which laws each known class is allowed to break *)
 Definition excused_nan : list bytes := [B "refl"; B "cons"; B "pcmp"; B "ctrans"; B "cl_eq"; B "ow_eq"; B "ocl_eq"].
-Definition excused_sigcmp : list bytes := [B "cons"; B "ctrans"].
 Definition excused_fd : list bytes := [B "ow_eq"; B "ocl_eq"].
 
 (* ------------------------------------------------------------------------------------------------ *)
